@@ -317,8 +317,16 @@ class JoinedString(Array, String):
         self.raw = value
         if isinstance(value, (list, tuple)):
             values = value
+        elif value is None:
+            values = []
         elif not isinstance(value, (str, bytes)):
-            values = list(value)
+            try:
+                values = list(value)
+            except TypeError:
+                # not iterable: nothing to split
+                del self[:]
+                element_set.send(self, adapted=False)
+                return False
         elif self.separator_regex:
             # a text regexp separator
             values = self.separator_regex.split(value)
